@@ -25,13 +25,14 @@ type Pool struct {
 	idxMu sync.Mutex
 	idx   map[string]map[string][]int
 	Names []string
+	file  map[string]string // resource name -> spec/data file name (the model resources' corrections go by file name)
 	JSON  map[string][]byte
 	Ann   map[string]*lib.Annotated
 	Msg   map[string]proto.Message
 }
 
 func loadPool() *Pool {
-	p := &Pool{JSON: map[string][]byte{}, Ann: map[string]*lib.Annotated{}, Msg: map[string]proto.Message{}}
+	p := &Pool{file: map[string]string{}, JSON: map[string][]byte{}, Ann: map[string]*lib.Annotated{}, Msg: map[string]proto.Message{}}
 	for _, rf := range resourceFiles {
 		js, err := os.ReadFile(filepath.Join(lib.SpecDir(), "data", rf.File+".json"))
 		if err != nil {
@@ -41,11 +42,13 @@ func loadPool() *Pool {
 		if err != nil {
 			lib.Fatal("resource %s: %v", rf.Name, err)
 		}
+		m = lib.FixModelResource(rf.File, m)
 		a, err := lib.Annotate(m)
 		if err != nil {
 			lib.Fatal("resource %s: %v", rf.Name, err)
 		}
 		p.Names = append(p.Names, rf.Name)
+		p.file[rf.Name] = rf.File
 		p.JSON[rf.Name] = js
 		p.Ann[rf.Name] = a
 		p.Msg[rf.Name] = m
@@ -78,7 +81,7 @@ func (p *Pool) Fresh(name string) proto.Message {
 	if err != nil {
 		lib.Fatal("resource %s: %v", name, err)
 	}
-	return m
+	return lib.FixModelResource(p.file[name], m)
 }
 
 // nodeMessage returns the proto message a node of a pristine tree stands for
